@@ -1081,6 +1081,13 @@ class SSPCopy(SSP):
         raise Unsupported(f"dict.{name}")
 
 
+class SSPProxy(Sym):
+    """MappingProxyType over the handle's cached state point"""
+
+    def __init__(self, inner):
+        self.inner = inner
+
+
 class UpdateStatepoint(FSContract):
     target = f"{JOB}.Job.update_statepoint"
     properties = ("C03", "C04")
@@ -1117,9 +1124,9 @@ class UpdateStatepoint(FSContract):
             return orig(interp, o, name, args, kw, via_super)
         ctx.dep_call = dep_call
         # callee view of Job.cached_statepoint (CachedStatepoint): a read-only view of whatever the handle has cached
-        ctx.callee_contracts[f"{JOB}.Job.cached_statepoint"] = lambda interp, b: ("proxy", b["self"].fields["_cached_statepoint"])
+        ctx.callee_contracts[f"{JOB}.Job.cached_statepoint"] = lambda interp, b: SSPProxy(b["self"].fields["_cached_statepoint"])
         od = ctx.dictify
-        ctx.dictify = lambda interp, v: SSPCopy(spv_of(v[1])) if isinstance(v, tuple) and v and v[0] == "proxy" else od(interp, v)
+        ctx.dictify = lambda interp, v: SSPCopy(spv_of(v.inner)) if isinstance(v, SSPProxy) else od(interp, v)
         return ctx
 
     def setup(self, interp, case):
